@@ -229,7 +229,7 @@ func pick(rt *rapid.T, label string, xs []string) string {
 // bad verb / as an unexported field).
 var pointerKinds = map[string]bool{"pstr": true, "pint": true, "chan": true, "func": true, "uptr": true, "pislice": true, "pmsi": true,
 	"pstructA": true, "pstructB": true, "structC": true, "pstringer": true, "perr": true, "stderr": true, "errwrap": true, "fmter": true,
-	"errfmter": true, "psafefmt": true, "errsafefmt": true, "psb": true, "pstringer!": true, "perr!": true, "rv": true, "rvfield": true, "rvfieldr": true, "rviface": true, "pregstruct": true, "pregslice": true, "mup": true}
+	"errfmter": true, "psafefmt": true, "errsafefmt": true, "psb": true, "pstringer!": true, "perr!": true, "rv": true, "rvfield": true, "rvfieldr": true, "rviface": true, "pregstruct": true, "pregslice": true, "mup": true, "pbigstruct": true}
 
 // pickK picks a kind, avoiding pointer kinds if the configuration says so.
 // errorKinds implement error.
@@ -422,6 +422,19 @@ func (c *valConfig) genVal(rt *rapid.T, depth int, pub bool) *Val {
 			if !c.noPointers {
 				return c.leafI(rt, "mup", pub)
 			}
+		case 10:
+			// big addressable elements whose pointer type has a method
+			k := "bigslice"
+			if depth == 0 && !c.noPointers && rapid.Bool().Draw(rt, "pbig") {
+				k = "pbigstruct"
+			}
+			v := c.leafS(rt, k, pub, false)
+			li := c.leafI(rt, "int", pub)
+			v.I, v.J = li.I, li.J
+			if v.HasT && !li.HasT {
+				v.J = v.I
+			}
+			return v
 		case 5:
 			v := c.leafS(rt, "structblank", pub, false)
 			li := c.leafI(rt, "int", pub)
